@@ -457,6 +457,13 @@ pub fn x_encode_tag(k: KeyCode, m: &Modifiers, h: HandleControl, tag: u8) -> Dec
         | (m.ralt as u32) << 7
         | (m.rctrl2 as u32) << 8;
     let hb = if h == HandleControl::MapLettersToUnicode { 1u32 } else { 0u32 };
+    if tag & 2 != 0 {
+        // the *value* flavour: answers spread over control characters, printable ASCII, Latin-1 and raw keys, so that a
+        // decoder which post-processes the layout's answer by its value (folds case, maps to control codes, filters a
+        // range ...) is seen; still a pure function of the triple, and the two tags answer differently
+        let idx = (k as u32 * 31 + mb * 17 + hb * 7 + (tag as u32 & 1) * 101) % 240;
+        return if idx % 11 == 10 { DecodedKey::RawKey(x_keycode((idx % 124) as u8)) } else { DecodedKey::Unicode(char::from_u32(idx).unwrap_or('?')) };
+    }
     let v = 0x10000 + ((tag as u32 & 1) << 17) + ((k as u32) << 10) + (hb << 9) + mb;
     match char::from_u32(v) {
         Some(c) => DecodedKey::Unicode(c),
@@ -504,13 +511,15 @@ pub fn scenario_events(keys: [u8; 3], states: [u8; 3], modes: u8, n: u8, verbose
     scenario_events_aspect(keys, states, modes, n, 3, verbose)
 }
 
-/// `aspect`: bit 0 = compare the reported modifiers (C04), bit 1 = compare the decoded keys and the mode (C14).
+/// `aspect`: bit 0 = compare the reported modifiers (C04), bit 1 = compare the decoded keys and the mode (C14), bit 2 = use
+/// the value flavour of the recording layout (answers in the control / ASCII / Latin-1 / raw-key ranges).
 /// Bits 3..5 of `modes` schedule a layout change (to the recording layout with tag 1 / 0) before event i.
 pub fn scenario_events_aspect(keys: [u8; 3], states: [u8; 3], modes: u8, n: u8, aspect: u8, verbose: bool) -> bool {
     // modifiers are observable only through Keyboard::get_modifiers; layout changes only through EventDecoder::change_layout:
     // the same events go through both objects
-    let mut kb = Keyboard::new(ScancodeSet2::new(), RecordingLayout(0), HandleControl::Ignore);
-    let mut ed = EventDecoder::new(RecordingLayout(0), HandleControl::Ignore);
+    let fl: u8 = if aspect & 4 != 0 { 2 } else { 0 };
+    let mut kb = Keyboard::new(ScancodeSet2::new(), RecordingLayout(fl), HandleControl::Ignore);
+    let mut ed = EventDecoder::new(RecordingLayout(fl), HandleControl::Ignore);
     let mut m = x_initial_mods();
     let mut ok = true;
     let mut tag = 0u8;
@@ -528,8 +537,8 @@ pub fn scenario_events_aspect(keys: [u8; 3], states: [u8; 3], modes: u8, n: u8, 
             }
             if (modes >> (i + 3)) & 1 != 0 {
                 tag = 1 - tag;
-                ed.change_layout(RecordingLayout(tag));
-                say!(verbose, "step {}: change_layout(recording layout #{})", i, tag);
+                ed.change_layout(RecordingLayout(fl + tag));
+                say!(verbose, "step {}: change_layout(recording layout #{})", i, fl + tag);
             }
             if aspect & 2 != 0 && (kb.get_ctrl_handling() != h || ed.get_ctrl_handling() != h) {
                 say!(verbose, "step {}: get_ctrl_handling() does not return the mode just set", i);
@@ -539,8 +548,8 @@ pub fn scenario_events_aspect(keys: [u8; 3], states: [u8; 3], modes: u8, n: u8, 
             let s = x_state(states[i]);
             let r = kb.process_keyevent(KeyEvent::new(k, s));
             let r2 = ed.process_keyevent(KeyEvent::new(k, s));
-            let e = x_decode_out(&m, h, k, s, 0);
-            let e2 = x_decode_out(&m, h, k, s, tag);
+            let e = x_decode_out(&m, h, k, s, fl);
+            let e2 = x_decode_out(&m, h, k, s, fl + tag);
             let m2 = x_mods_step(&m, k, s);
             let got = kb.get_modifiers().clone();
             say!(verbose, "step {}: mode {:?}, event {:?}/{:?} -> {:?}   expected {:?}{}", i, h, k, s, r, e, if r == e { "" } else { "   <-- MISMATCH" });
